@@ -10,7 +10,7 @@ use serde_json::json;
 use std::collections::BTreeSet;
 
 /// (field type, `#[default(..)]` argument or "" for no attribute, reference value expression, kind)
-const EXPRS: [(&str, &str, &str, &str); 21] = [
+const EXPRS: [(&str, &str, &str, &str); 26] = [
     ("u8", "", "0u8", "none"),
     ("u8", "5", "5u8", "int-literal"),
     ("String", "\"abc\"", "String::from(\"abc\")", "string-literal"),
@@ -33,6 +33,12 @@ const EXPRS: [(&str, &str, &str, &str); 21] = [
     ("Tgt", "\"three\"", "Tgt(5)", "into-only-string-literal"),
     // a parenthesised path is NOT "a path": no Into, so the ordinary unsize coercion &[u8; 3] -> &[u8] applies
     ("&'static [u8]", "(BYTES)", "&[1u8, 2, 3][..]", "parenthesised-path-needing-coercion"),
+    // further literal kinds: only STRING literals (plain and raw) are converted with Into
+    ("&'static [u8]", "b\"abc\"", "&[97u8, 98, 99][..]", "byte-string-literal-needing-coercion"),
+    ("String", "r\"a\\b\"", "String::from(\"a\\\\b\")", "raw-string-literal"),
+    ("f64", "-1.5", "-1.5f64", "negative-float-literal"),
+    ("u8", "b'a'", "97u8", "byte-literal"),
+    ("u16", "7u16", "7u16", "suffixed-literal"),
     // no attribute on a field whose type has an INHERENT fn default() that disagrees with its Default impl
     ("Lvl", "", "Lvl(1)", "inherent-default-fn"),
 ];
@@ -476,6 +482,30 @@ fn fragment_precedence_cases(tier: &str) -> Vec<XCase> {
             must_compile: true,
         });
     }
+    // one fragment of every expression kind whose reading depends on grouping, used as receiver / callee
+    for entry in Entry::BOTH {
+        let head = match entry {
+            Entry::Attr => "#[derive_ex(Default)]".to_string(),
+            Entry::Derive => "#[derive(Ex)]\n#[derive_ex(Default)]".to_string(),
+        };
+        let item = "pub struct X { #[default($u.pow(2))] pub a: i32, #[default($c.pow(2))] pub b: i32, #[default($r.len())] pub c: usize, #[default($p.len())] pub d: usize, #[default($f(3))] pub e: u8, #[default($b.pow(2))] pub f: i32 }";
+        let code = format!("use derive_ex::{{derive_ex, Ex}};\nmacro_rules! mk3 {{ ($u:expr, $c:expr, $r:expr, $p:expr, $f:expr, $b:expr) => {{ #[derive(Debug)]\n{head}\n{item}\nfn direct() -> X {{ X {{ a: $u.pow(2), b: $c.pow(2), c: $r.len(), d: $p.len(), e: $f(3), f: $b.pow(2) }} }} }} }}\nmk3!(-3i32, 3u8 as i32, 0..3usize, &[1u8, 2][..], |x: u8| x + 1, 1i32 + 2);\npub fn run() -> String {{ format!(\"{{:?}}|{{:?}}\", <X as ::core::default::Default>::default(), direct()) }}\n");
+        let mut atoms = BTreeSet::new();
+        atoms.insert(format!("entry={}", entry.name()));
+        atoms.insert("expr=fragment-of-every-grouping-dependent-kind".to_string());
+        v.push(XCase {
+            text: format!("{} {} [$u = -3i32, $c = 3u8 as i32, $r = 0..3usize, $p = &[1u8, 2][..], $f = |x: u8| x + 1, $b = 1i32 + 2]", entry.name(), item),
+            code,
+            expected: "X { a: 9, b: 9, c: 3, d: 2, e: 4, f: 9 }|X { a: 9, b: 9, c: 3, d: 2, e: 4, f: 9 }".to_string(),
+            atoms,
+            nontrivial: true,
+            detail: json!({"gen": "fragment-precedence", "tier": tier, "entry": entry.name(), "item": item}),
+            what: format!("derive_ex(Default) via {} on `{}` inside macro_rules! (unary / cast / range / reference / closure / binary fragments as receiver or callee)", entry.name(), item),
+            inner: 1,
+            symptom: "default-value-differs".into(),
+            must_compile: true,
+        });
+    }
     v
 }
 
@@ -525,19 +555,28 @@ fn generic_type_level_cases(tier: &str) -> Vec<XCase> {
         ("#[default(Self::mk())] pub struct X<T: New>(pub T, #[default(9)] pub u8);", "X(T::new(), 3)", "X(NoDef(7), 3)"),
         ("#[default(Self::mk())] pub enum X<T: New> { A(T), B { q: Option<T> } }", "X::A(T::new())", "A(NoDef(7))"),
         ("#[default(X::B)] pub enum X<T: New> { A(T), B }", "X::B", "B"),
+        // the bound the value needs is not declared on the type but given explicitly, next to the value or in the list
+        ("#[default(X::A(T::new()), bound(T: New))] pub enum X<T> { A(T), B }", "X::A(T::new())", "A(NoDef(7))"),
+        ("#[default(X(T::new(), 3), bound(T: New))] pub struct X<T>(pub T, pub u8);", "X(T::new(), 3)", "X(NoDef(7), 3)"),
+        ("#[default(X::A(T::new()))] pub enum X<T> { A(T), B } //list:Default(bound(T: New))", "X::A(T::new())", "A(NoDef(7))"),
+        ("#[default(X { a: T::new(), b: 3 })] pub struct X<T> { pub a: T, pub b: u8 } //list:Default, bound(T: New)", "X { a: T::new(), b: 3 }", "X { a: NoDef(7), b: 3 }"),
     ];
     for (item, mk, expected) in items {
+        let (item, list) = match item.split_once(" //list:") {
+            Some((i, l)) => (i, l),
+            None => (item, "Default"),
+        };
         for entry in Entry::BOTH {
             let head = match entry {
-                Entry::Attr => "#[derive_ex(Default)]".to_string(),
-                Entry::Derive => "#[derive(Ex)]\n#[derive_ex(Default)]".to_string(),
+                Entry::Attr => format!("#[derive_ex({list})]"),
+                Entry::Derive => format!("#[derive(Ex)]\n#[derive_ex({list})]"),
             };
             let code = format!("use derive_ex::{{derive_ex, Ex}};\npub trait New {{ fn new() -> Self; }}\n#[derive(Debug)] pub struct NoDef(pub u8);\nimpl New for NoDef {{ fn new() -> Self {{ NoDef(7) }} }}\n#[derive(Debug)]\n{head}\n{item}\nimpl<T: New> X<T> {{ pub fn mk() -> Self {{ {mk} }} }}\npub fn run() -> String {{ format!(\"{{:?}}\", <X<NoDef> as ::core::default::Default>::default()) }}\n");
             let mut atoms = BTreeSet::new();
             atoms.insert(format!("entry={}", entry.name()));
             atoms.insert("type_level=generic-without-Default".to_string());
             v.push(XCase {
-                text: format!("{} {}", entry.name(), item),
+                text: format!("{} derive_ex({}) {}", entry.name(), list, item),
                 code,
                 expected: expected.to_string(),
                 atoms,
